@@ -76,12 +76,104 @@ def _root_form(v):
     return v, 1
 
 
+#: integer cell vectors, one per zero pattern of the pairwise dot products (d01, d02, d12), with integer Gram
+#: determinants that are perfect squares; each is also used with two rows swapped (left-handed) and negated
+_VOLUME_REPRESENTATIVES = {
+    (3,): [[3, 4, 12]],
+    (1, 3): [[[3, 4, 12]]],
+    (2, 3): [
+        [[2, 0, 0], [0, 3, 0]],  # orthogonal
+        [[3, 0, 0], [4, 5, 0]],  # not orthogonal
+        [[1, 2, 2], [2, 1, -2]],  # orthogonal, not axis-aligned
+    ],
+    (3, 3): [
+        [[2, 0, 0], [0, 3, 0], [0, 0, 5]],  # 000
+        [[2, 0, 0], [1, 3, 0], [0, 0, 5]],  # d01
+        [[2, 0, 0], [0, 3, 0], [1, 0, 5]],  # d02
+        [[2, 0, 0], [0, 3, 0], [0, 1, 5]],  # d12
+        [[2, 0, 0], [1, 3, 0], [1, 0, 5]],  # d01 d02 (d12 = 1: all three) -> see next rows
+        [[1, 1, 0], [1, -1, 1], [0, 0, 4]],  # d12 only, rotated
+        [[2, 0, 0], [1, 3, 0], [1, 1, 5]],  # all three
+        [[1, 2, 2], [2, 1, -2], [2, -2, 1]],  # orthogonal, rotated (volume 27)
+    ],
+}
+
+
+def _check_volume_cases(ctx, vf, label, shape):
+    from fractions import Fraction
+    from math import isqrt
+
+    from ..accessors import AccessorEval, Raised
+    from ..symarr import NotSymbolic
+
+    def exact_gram_det(rows):
+        n = len(rows)
+        g = [[Fraction(sum(x * y for x, y in zip(rows[i], rows[j]))) for j in range(n)] for i in range(n)]
+        if n == 1:
+            return g[0][0]
+        if n == 2:
+            return g[0][0] * g[1][1] - g[0][1] * g[1][0]
+        return (g[0][0] * (g[1][1] * g[2][2] - g[1][2] * g[2][1]) - g[0][1] * (g[1][0] * g[2][2] - g[1][2] * g[2][0])
+                + g[0][2] * (g[1][0] * g[2][1] - g[1][1] * g[2][0]))
+
+    ncase = 0
+    for base in _VOLUME_REPRESENTATIVES[shape]:
+        variants = [("as listed", base)]
+        if len(shape) == 2 and shape[0] >= 2:
+            variants.append(("rows swapped", [base[1], base[0], *base[2:]]))
+            variants.append(("last row negated", [*base[:-1], [-x for x in base[-1]]]))
+        for vname, cell in variants:
+            rows = cell if isinstance(cell[0], list) else [cell]
+            det = exact_gram_det(rows)
+            want = isqrt(int(det))
+            if want * want != det:
+                raise AnalysisError(f"C20-R3 representative {cell} has a Gram determinant that is not a perfect square")
+            try:
+                val = AccessorEval(ctx.prog, None).run_free(vf, [np.array(cell, dtype=float)], {})
+            except Raised as exc:
+                ctx.violate("R3", f"volume() of {label} {cell} ({vname}) raises {exc.args[0]}", vf, vf.node, construct=f"volume {label}: raises")
+                return
+            except NotSymbolic as exc:
+                raise AnalysisError(f"volume() is outside the evaluation whitelist on numbers: {exc}") from exc
+            try:
+                got = float(val.item() if isinstance(val, np.ndarray) else val)
+            except (TypeError, ValueError) as exc:
+                got = _numeric_value(val)
+            ncase += 1
+            if not abs(got - want) <= 1e-9 * max(1.0, want):
+                kind = "negative" if got < 0 else "wrong"
+                ctx.violate("R3", f"volume() of the cell vectors {cell} ({vname}) is {got:.6g}; the Gram determinant det(A A^T) = {det} gives {want}", vf, vf.node, construct=f"volume {label}: {kind} for a representative cell")
+                return
+    ctx.ok("R3", f"{label}: the routine branches on the data; {ncase} representative cells (every orthogonality pattern, both orientations) give the root of the Gram determinant", vf.where)
+
+
+def _numeric_value(val):
+    """Numeric value of a Sym made of constants and sqrt/abs atoms of constants."""
+    from ..symarr import OPAQUE_ARGS, Sym
+
+    v = Sym.const(val)
+    total = 0.0
+    for mono, coef in v.terms.items():
+        term = float(coef)
+        for name, k in mono:
+            if name not in OPAQUE_ARGS:
+                raise AnalysisError(f"volume() returns the non-numeric value `{val!r}` on numbers")
+            fname, arg = OPAQUE_ARGS[name]
+            x = _numeric_value(arg)
+            x = {"sqrt": lambda t: t ** 0.5, "abs": abs}.get(fname, None)(x) if fname in ("sqrt", "abs") else None
+            if x is None:
+                raise AnalysisError(f"volume() returns `{val!r}` on numbers")
+            term *= x ** k
+        total += term
+    return total
+
+
 def _check_volume(ctx):
     """R3 by evaluation: volume() on symbolic cell vectors (one, two, three rows) returns the non-negative root of
     the Gram determinant det(A A^T) -- length, area, volume; orientation- and rotation-independent by construction --
     and rejects every other shape with ValueError."""
     from ..accessors import AccessorEval, Raised
-    from ..symarr import NotSymbolic, Sym, _det, sym_array
+    from ..symarr import NotSymbolic, Sym, SymbolicBranch, _det, sym_array
 
     prog = ctx.prog
     vf = prog.func("iodata.utils.volume")
@@ -90,10 +182,19 @@ def _check_volume(ctx):
         a = sym_array("a", shape)
         rows = a.reshape(-1, 3)
         gram = _det(np.dot(rows, rows.T))
+        ev = AccessorEval(prog, None)
         try:
-            val = AccessorEval(prog, None).run_free(vf, [a], {})
+            val = ev.run_free(vf, [a], {})
+            if ev.generic_branches:
+                # decided for generic cells only: the special cells the routine tests for are decided below
+                _check_volume_cases(ctx, vf, label, shape)
         except Raised as exc:
             ctx.violate("R3", f"volume() of {label} raises {exc.args[0]}", vf, vf.node, construct=f"volume {label}: raises")
+            continue
+        except SymbolicBranch:
+            # the routine chooses its formula from the data: decide each representative of the finite set of
+            # zero patterns of the Gram matrix (which pairs of vectors are orthogonal), in both orientations
+            _check_volume_cases(ctx, vf, label, shape)
             continue
         except NotSymbolic as exc:
             raise AnalysisError(f"volume() is outside the evaluation whitelist: {exc}") from exc
@@ -307,30 +408,35 @@ def _check_four_index(ctx):
     bad = None
     n = 0
     try:
-        for idx in itertools.product(range(4), repeat=4):
-            arr = np.empty((4, 4, 4, 4), dtype=object)
-            arr.fill(Sym.const(0))
-            v = Sym.atom("v")
+        from ..symarr import sym_array
+
+        before = sym_array("old", (4, 4, 4, 4))
+        # the array may hold anything beforehand (a second record for the same element overwrites the first), and
+        # the value may be any number, zero included
+        for idx, (vname, v) in itertools.product(itertools.product(range(4), repeat=4), [("v", Sym.atom("v")), ("0.0", 0.0)]):
+            arr = before.copy()
             ev = AccessorEval(prog, None)
             ev.module = f.module
             try:
                 ev.run_free(f, [arr] + list(idx) + [v], {})
             except Raised as exc:
-                bad = bad or (idx, f"raises {exc.cls}")
+                bad = bad or (idx, vname, f"raises {exc.cls}")
                 continue
-            got = {tuple(int(x) for x in pos) for pos in np.ndindex(4, 4, 4, 4) if Sym.const(arr[pos]).terms}
-            wrong = [pos for pos in got if not (Sym.const(arr[pos]) == v)]
+            got = {tuple(int(x) for x in pos) for pos in np.ndindex(4, 4, 4, 4) if not (Sym.const(arr[pos]) == before[pos])}
+            wrong = [pos for pos in got if not (Sym.const(arr[pos]) == Sym.const(v))]
             i, j, k, l = idx
             want = {(i, j, k, l), (j, i, l, k), (k, l, i, j), (l, k, j, i), (k, j, i, l), (l, i, j, k), (i, l, k, j), (j, k, l, i)}
             n += 1
             if got != want or wrong:
-                bad = bad or (idx, f"sets {sorted(got - want) or 'nothing extra'} beyond the orbit and misses {sorted(want - got) or 'nothing'}")
+                what = f"stores something else than the value at {sorted(wrong)}" if wrong else (
+                    f"sets {sorted(got - want) or 'nothing extra'} beyond the orbit and leaves {sorted(want - got) or 'nothing'} of it at the old content")
+                bad = bad or (idx, vname, what)
     except NotSymbolic as exc:
         raise AnalysisError(f"set_four_index_element is outside the evaluation whitelist: {exc}") from exc
     if bad:
-        ctx.violate("R1", f"set_four_index_element(array, {', '.join(map(str, bad[0]))}, v) {bad[1]}; the physicists'-notation symmetry orbit has exactly the positions (ijkl),(jilk),(klij),(lkji),(kjil),(lijk),(ilkj),(jkli)", f, f.node, construct=f"four-index {bad[0]}: {bad[1]}"[:200])
+        ctx.violate("R1", f"set_four_index_element(array, {', '.join(map(str, bad[0]))}, {bad[1]}) on an array with earlier content {bad[2]}; the physicists'-notation symmetry orbit has exactly the positions (ijkl),(jilk),(klij),(lkji),(kjil),(lijk),(ilkj),(jkli)", f, f.node, construct=f"four-index {bad[0]} value {bad[1]}: {bad[2]}"[:200])
     else:
-        ctx.ok("R1", f"all {n} index tuples of a 4x4x4x4 symbolic array: exactly the symmetry orbit of (i,j,k,l) receives the value, nothing else is touched", f"{f.module.relpath}:{f.lineno}")
+        ctx.ok("R1", f"all {n} (index tuple, value) cases of a 4x4x4x4 symbolic array with earlier content, value symbolic or zero: exactly the symmetry orbit of (i,j,k,l) receives the value, nothing else is touched", f"{f.module.relpath}:{f.lineno}")
 
 
 def _check_check_dm(ctx):
